@@ -18,7 +18,8 @@ SPEC = dict(
     assumptions=[
         "reference model R2 (bvmon/ref.py) encodes the README rules; PEP 440 order from the packaging wheel",
         "patterns are the unambiguous grammar G (exactly one parse of every generated text)",
-        "cases where old and new are both non-PEP 440 are outside the model (counted as discarded)",
+        "when old and new text are both outside PEP 440 the gate decision is not modelled (legacy ordering): a refusal is "
+                 "only counted, an accepted bump must announce exactly the model's text",
     ],
     required=["agree:accepted", "agree:refused", "subprocess_replays", "update_command_replays",
               "noncanonical_start_versions"],
